@@ -128,6 +128,9 @@
 #[macro_use]
 extern crate alloc;
 
+#[cfg(arc_swap_verif)]
+#[doc(hidden)]
+pub mod verif;
 pub mod access;
 mod as_raw;
 pub mod cache;
@@ -147,7 +150,12 @@ use core::marker::PhantomData;
 use core::mem;
 use core::ops::Deref;
 use core::ptr;
+#[cfg(not(arc_swap_verif))]
 use core::sync::atomic::{AtomicPtr, Ordering};
+#[cfg(arc_swap_verif)]
+use core::sync::atomic::Ordering;
+#[cfg(arc_swap_verif)]
+use crate::verif::AtomicPtr;
 
 use alloc::sync::Arc;
 
